@@ -41,7 +41,7 @@ type shape struct {
 }
 
 // routes exercised for every shape
-var routes = []string{"stored-type", "replay-eventtype", "subscribe-with-replay", "subscribe-with-replay-live", "upcast-source", "upcast-target", "eventtype-rule", "after-upcast-replay-and-clear", "forwarded-from-a-traced-bus"}
+var routes = []string{"stored-type", "replay-eventtype", "subscribe-with-replay", "subscribe-with-replay-live", "upcast-source", "upcast-target", "eventtype-rule", "after-upcast-replay-and-clear", "forwarded-from-a-traced-bus", "upcast-chain-middle", "upcast-chain-middle-after-an-undecodable-document"}
 
 var bg = context.Background()
 
@@ -205,6 +205,66 @@ func mk[T any](name string, sample T, n func(T) int, setN func(int) T) shape {
 			eventbus.SubscribeWithReplay(bg, eventbus.New(eventbus.WithStore(ms)), "fwd", func(e T) { got = append(got, n(e)) })
 			if len(got) != 3 {
 				bad("SubscribeWithReplay[T] selects %d of the 3 persisted events of its type (two of them forwarded from another bus)", len(got))
+			}
+		case "upcast-chain-middle", "upcast-chain-middle-after-an-undecodable-document":
+			// T is the middle of a typed chain Old -> T -> Target and the log holds events under
+			// all three names (more than one of the first two): every one of them is matched by
+			// the upcasters registered for its name, so an upcasting replay reports them all
+			// under Target's name and SubscribeWithReplay[Target] receives them all. In the
+			// second variant the log starts with a document under T's name that the T -> Target
+			// upcaster cannot decode: that one is legitimately left as it is, and it must not
+			// change how the events after it are matched.
+			ms2 := eventbus.NewMemoryStore()
+			bus1 := eventbus.New(eventbus.WithStore(ms2))
+			badDoc := route != "upcast-chain-middle"
+			if badDoc {
+				if _, err := ms2.Append(bg, &eventbus.Event{Type: want, Data: json.RawMessage(`"not an object"`), Timestamp: time.Unix(1, 0)}); err != nil {
+					bad("append: %v", err)
+					return
+				}
+			}
+			eventbus.Publish(bus1, Old{N: 5})
+			eventbus.Publish(bus1, setN(6))
+			eventbus.Publish(bus1, Target{N: 7})
+			eventbus.Publish(bus1, Old{N: 8})
+			eventbus.Publish(bus1, setN(9))
+			wantNums := []int{115, 106, 7, 118, 109}
+			bus2 := eventbus.New(eventbus.WithStore(ms2))
+			if err := eventbus.RegisterUpcast(bus2, func(o Old) T { return setN(o.N + 10) }); err != nil {
+				bad("RegisterUpcast[Old,T] rejected: %v", err)
+				return
+			}
+			if err := eventbus.RegisterUpcast(bus2, func(e T) Target { return Target{N: n(e) + 100} }); err != nil {
+				bad("RegisterUpcast[T,Target] rejected: %v", err)
+				return
+			}
+			for round := 1; round <= 2; round++ {
+				var types []string
+				var nums []int
+				bus2.ReplayWithUpcast(bg, eventbus.OffsetOldest, func(se *eventbus.StoredEvent) error {
+					types = append(types, se.Type)
+					var t Target
+					json.Unmarshal(se.Data, &t)
+					nums = append(nums, t.N)
+					return nil
+				})
+				if badDoc {
+					if len(types) == 0 || types[0] != want {
+						bad("the document the T->Target upcaster cannot decode is reported as %v, want it left under T's name %q", types, want)
+						return
+					}
+					types, nums = types[1:], nums[1:]
+				}
+				tn := eventbus.EventType(Target{})
+				if fmt.Sprint(types) != fmt.Sprint([]string{tn, tn, tn, tn, tn}) || fmt.Sprint(nums) != fmt.Sprint(wantNums) {
+					bad("typed chain Old->T->Target over a log holding all three: upcasting replay %d saw types %v numbers %v, want five %q events numbered %v", round, types, nums, tn, wantNums)
+					return
+				}
+			}
+			var got []int
+			eventbus.SubscribeWithReplay(bg, bus2, "chain-end", func(e Target) { got = append(got, e.N) })
+			if fmt.Sprint(got) != fmt.Sprint(wantNums) {
+				bad("typed chain Old->T->Target over a log holding all three: SubscribeWithReplay[Target] received %v, want %v", got, wantNums)
 			}
 		case "upcast-target":
 			// T is the target: an Old event upcast to T must be matched as T everywhere.
@@ -445,7 +505,7 @@ func replay(c *h.Check, rf *h.ReplayFile) []vrt.Violation {
 
 func main() {
 	h.Main("C15", "exploration", []string{
-		"the space is finite and enumerated completely: 13 type shapes x 6 routes",
+		"the space is finite and enumerated completely: 13 type shapes x 11 routes",
 	}, run, replay, func(string) map[string]any {
 		return map[string]any{"rule": "complete cross product of event type shapes (plain / pointer / custom name on value receiver by value and by pointer / custom name on pointer receiver / state messages by value and pointer) and name-deriving APIs (persisted type, Replay+EventType, SubscribeWithReplay replay and live phase, RegisterUpcast source and target); every cell is distinct and non-trivial"}
 	})
